@@ -3,6 +3,7 @@ package main
 import (
 	"errors"
 	"fmt"
+	"io"
 	"os"
 	"sort"
 	"time"
@@ -194,6 +195,12 @@ func setupC12(env *simEnv) {
 						res.panicked = fmt.Sprint(r)
 					}
 				}()
+				if simrt.MiscRng().Intn(4) == 0 {
+					// the loading cache is not always a virgin: it may have saved itself under its
+					// own version before it is handed somebody else's stream
+					_ = api2.save(ver, io.Discard)
+					probe("c12.loader-saved-before-load")
+				}
 				r := &diskReader{data: b, chunk: chunk}
 				if failAt >= 0 {
 					r.d = &simDisk{failAfter: -1, readFailAt: failAt}
@@ -442,7 +449,6 @@ func setupC12(env *simEnv) {
 		rd.Extra = map[string]any{"exhaustive_positions": exhaustive, "stream_bytes": L, "segments": ns, "saved_entries": len(saved), "loads": evals}
 	}
 }
-
 
 // fillCache stores op.N distinct keys starting at op.Key (every seventh with the TTL op.TTL).
 func fillCache(env *simEnv, op Op) {
